@@ -77,6 +77,21 @@ NAMED = {
 }
 
 
+def make_resolver(repo, mod, fn):
+    """Call -> FunctionDef of a module-level repository function (for inter-procedural interpretation), else None."""
+    from ..core import FuncInfo
+
+    def resolve(call):
+        d = dotted(call.func)
+        if not d:
+            return None
+        r = repo.resolve_in_func(mod, fn, d)
+        if isinstance(r, FuncInfo) and r.cls is None and isinstance(r.node, ast.FunctionDef):
+            return r.node
+        return None
+    return resolve
+
+
 def _components(repo, ci, dim):
     """[(half_turns, matrix)] of ci._eigen_components, by constant folding or (for looped forms) interpretation."""
     fn = ci.methods.get('_eigen_components')
@@ -94,6 +109,7 @@ def _components(repo, ci, dim):
                 return caches.setdefault(s, {})
             return NotImplemented
         it = fdx.NumInterp({'self': {'_dimension': dim or 2}}, attr_hook=attr_hook)
+        it.resolver = make_resolver(repo, ci.mod, fn)
         try:
             val = it.call(fn)
         except (fdx.Unsupported, fdx.Raised) as ex:
@@ -129,8 +145,7 @@ def run(ctx):
         try:
             comps, how = _components(repo, ci, dim)
         except fold.NotLiteral as ex:
-            ctx.unres('C03.a', key, f'not extractable: {ex}', ci.mod.rel, fn.lineno if fn else 0)
-            continue
+            raise AnalysisError(f'eigen-components of {key} can no longer be extracted ({ex}); the table rules cannot be decided')
         n = ref.shape[0]
         ps = [m for _, m in comps]
         ok = all(m.shape == (n, n) for m in ps)
